@@ -1742,11 +1742,33 @@ def mutation_on_unknown_model_silently_skipped(case, outcome, atoms):
     a ChangeField on a field a later DeleteField removes), the evolve command
     accepts an evolution that names a missing model.  (The same filter is how
     mutations for models routed to another database are skipped, C16.)"""
-    if (case.get('perturb') or {}).get('kind') != 'rename_model_arg':
+    kind = (case.get('perturb') or {}).get('kind')
+    if kind not in ('rename_model_arg', 'rename_field_arg'):
         return atoms
     if any(a[0] in ('accepted_but_schema_differs', 'accepted_but_signature_differs')
            for a in atoms):
         return atoms
+    if kind == 'rename_field_arg':
+        # the same filter drops every mutation of a model that did not change between
+        # the stored and the current signature - also one naming a field that does not
+        # exist (the unperturbed evolution was without effect on that model)
+        import json
+        from . import history as H
+        from . import specs as S
+        try:
+            vers = H.versions(case['history'])
+            step = case['history']['steps'][0]
+            p = case['perturb']
+            mut = step['seq'][p['i'] % len(step['seq'])]
+            m0 = S.get_model(vers[0]['spec'], mut['app'], mut['model'])
+            m1 = S.get_model(vers[-1]['spec'], mut['app'], mut['model'])
+        except Exception:
+            return atoms
+        if m0 is None or m1 is None or \
+                json.dumps(m0, sort_keys=True) != json.dumps(m1, sort_keys=True):
+            return atoms
+        return [a for a in atoms if not (a[0] == 'accepted_but_must_be_rejected' and
+                                         a[1] == 'rename_field_arg')]
     return [a for a in atoms if not (a[0] == 'accepted_but_must_be_rejected' and
                                      a[1] == 'rename_model_arg:missing')]
 
